@@ -94,6 +94,7 @@ class Contract:
         notes=(),
         cover_raises=True,
         ghost_final=None,
+        segment=None,
     ):
         self.file, self.qualname = file, qualname
         self.props = tuple(props)
@@ -121,6 +122,7 @@ class Contract:
         self.notes = list(notes)
         self.cover_raises = cover_raises
         self.ghost_final = ghost_final
+        self.segment = segment
 
     @property
     def key(self):
@@ -215,6 +217,7 @@ class Registry:
 
     def find_node(self, file, qualname):
         ov = self.source_override.get((file, qualname))
+        qualname = qualname.split('#')[0]  # `Class.method#tag`: a second (segment) contract on the same function
         if ov is not None:
             t = ast.parse(textwrap.dedent(ov))
             return t.body[0]
@@ -243,7 +246,7 @@ class Registry:
         ov = self.source_override.get((file, qualname))
         if ov is not None:
             return ov
-        node = self.find_node(file, qualname)
+        node = self.find_node(file, qualname.split('#')[0])
         lines = self.source(file).splitlines(keepends=True)
         start = min([node.lineno] + [d.lineno for d in node.decorator_list]) - 1
         return ''.join(lines[start : node.end_lineno])
